@@ -56,3 +56,31 @@ Print Assumptions C08_unquote_quote.
 Theorem C08_quote_refuted :
   DefaultDoc.quote (s2l "'q'") = s2l "'q'" /\ Quote.unquote (DefaultDoc.quote (s2l "'q'")) = s2l "q" /\ QuoteProofs.bare (s2l "'q'") = false.
 Proof. exact QuoteProofs.quoted_text_loses_its_quotes. Qed.
+
+(* ---- the class format at text level (Model/ClassFmt.v, compared with emit.class_ / parse.class_ each run): one round is already
+   the fixpoint.  For EVERY one-line header and non-empty list of attributes of the domain: the class written from what was parsed
+   back is the class that was written first, and parsing it again gives the same description. *)
+From CDD Require DocSplit ClassFmt ClassFmtProofs RestDocIndentProofs TextFixpointProofs.
+Theorem C08_class_text_fixpoint : forall doc ps,
+  RestDocProofs.clean doc = true -> RestDocIndentProofs.one_line doc = true -> forallb ClassFmtProofs.cparam_ok ps = true ->
+  NoDup (map fst ps) -> ps <> [] ->
+  let r := ClassFmt.parse_class (ClassFmt.emit_class doc ps) in
+  ClassFmt.emit_class (fst r) (snd r) = ClassFmt.emit_class doc ps
+  /\ ClassFmt.parse_class (ClassFmt.emit_class (fst r) (snd r)) = r.
+Proof. exact TextFixpointProofs.class_text_fixpoint. Qed.
+Print Assumptions C08_class_text_fixpoint.
+
+(* ---- one SQLAlchemy column (Model/SqlCol.v, compared with the column emitter / parser each run): for EVERY parameter whose
+   description carries no key marker -- any type, any default, any number of full stops at the end of the description -- the second
+   round (emit the column, read it back) changes nothing: all trailing full stops go in round 1, the one a default brings back is
+   stripped and re-added every round. *)
+From CDD Require SqlCol SqlColRoundProofs.
+Theorem C08_column_round_idempotent : forall p, SqlColRoundProofs.no_marker (SqlColRoundProofs.doc_of p) = true ->
+  SqlCol.parse_col (SqlCol.emit_col (SqlCol.parse_col (SqlCol.emit_col p))) = SqlCol.parse_col (SqlCol.emit_col p).
+Proof. exact SqlColRoundProofs.col_round_idempotent. Qed.
+Print Assumptions C08_column_round_idempotent.
+Example C08_column_round_example :
+  let p := {| SqlCol.p_typ := {| SqlCol.t_opt := false; SqlCol.t_base := SqlCol.BStr |}; SqlCol.p_doc := Some (s2l "the unit, in m/s etc..."); SqlCol.p_default := None |} in
+  SqlCol.parse_col (SqlCol.emit_col (SqlCol.parse_col (SqlCol.emit_col p))) = SqlCol.parse_col (SqlCol.emit_col p)
+  /\ SqlCol.p_doc (SqlCol.parse_col (SqlCol.emit_col p)) = Some (s2l "the unit, in m/s etc").
+Proof. exact SqlColRoundProofs.col_round_example. Qed.
